@@ -15,7 +15,11 @@ Python being modelled (stackscope/_extract.py):
             finally: (self.with_contexts, self.recurse_child_tasks) = prev
 
 A *call tree* describes what the user's hooks do during one top-level call: every hook invocation is
-a list of actions; an action is a nested API call, an observation of the options, or a raise.
+a list of actions; an action is a nested API call, an observation of the options, a raise of an ordinary
+exception (contained by the extraction that called the hook), a raise of a `BaseException` such as
+KeyboardInterrupt ("abort": `extract_iter` only catches `Exception`, so it unwinds through every enclosing
+extraction — and through every `push`, whose `finally` still restores the options), or a hook body that catches
+such an abort and carries on.
 -/
 namespace SS.Options
 
@@ -35,6 +39,7 @@ inductive Event
   | refused                   -- extract_child raised RuntimeError (outside any extract)
   | enter (c : Cell)          -- push() installed c
   | leave (c : Cell)          -- push() restored c
+  | caught                    -- a hook caught a BaseException that was unwinding through nested extractions
   deriving DecidableEq, Repr
 
 mutual
@@ -46,6 +51,8 @@ mutual
     | fill (hook : Acts)                          -- fill_context(ctx): its elaborate/unwrap hooks do `hook`
     | observe
     | raise
+    | abort                                       -- raise a BaseException that is not an Exception
+    | catch (body : Acts)                         -- try: body  except <that BaseException>: pass
   /-- The actions of one hook invocation, in order. -/
   inductive Acts
     | nil
@@ -59,7 +66,8 @@ end
 structure Res where
   cell : Cell
   events : List Event
-  raised : Bool
+  raised : Bool               -- ended by an ordinary exception
+  aborted : Bool              -- ended by a BaseException
   deriving Repr
 
 mutual
@@ -69,47 +77,54 @@ mutual
         -- with current_options.push(...): return extract_child(stackitem, for_task=False)
         let new : Cell := ⟨some wc, some rc⟩
         let r := evalHooks hooks new
-        -- `finally` restores prev whatever happened; extract itself never raises (C05)
-        ⟨c, [.enter new] ++ r.events ++ [.leave c], false⟩
+        -- `finally` restores prev whatever happened; extract itself never raises an Exception (C05)
+        ⟨c, [.enter new] ++ r.events ++ [.leave c], false, r.aborted⟩
     | .outermost wc rc hooks noFrame, c =>
         let new : Cell := ⟨some wc, some rc⟩
         let r := evalHooks hooks new
-        ⟨c, [.enter new] ++ r.events ++ [.leave c], noFrame⟩
+        ⟨c, [.enter new] ++ r.events ++ [.leave c], noFrame && !r.aborted, r.aborted⟩
     | .child forTask hooks, c =>
         match c.rc with
-        | none => ⟨c, [.refused], true⟩
+        | none => ⟨c, [.refused], true, false⟩
         | some rc =>
-          if forTask && !rc then ⟨c, [.stub], false⟩
+          if forTask && !rc then ⟨c, [.stub], false, false⟩
           else
             let r := evalHooks hooks c
-            ⟨r.cell, [.full] ++ r.events, false⟩
+            ⟨r.cell, [.full] ++ r.events, false, r.aborted⟩
     | .fill hook, c =>
         match c.wc with
         | none =>
           -- with current_options.push(with_contexts=True, recurse_child_tasks=False): fill_context(context)
           let new : Cell := ⟨some true, some false⟩
           let r := evalActs hook new
-          ⟨c, [.enter new] ++ r.events ++ [.leave c], r.raised⟩
+          ⟨c, [.enter new] ++ r.events ++ [.leave c], r.raised, r.aborted⟩
         | some _ =>
           evalActs hook c
-    | .observe, c => ⟨c, [.obs c], false⟩
-    | .raise, c => ⟨c, [], true⟩
-  /-- A hook body: stop at the first action that raises. -/
+    | .observe, c => ⟨c, [.obs c], false, false⟩
+    | .raise, c => ⟨c, [], true, false⟩
+    | .abort, c => ⟨c, [], false, true⟩
+    | .catch body, c =>
+        let r := evalActs body c
+        ⟨r.cell, r.events ++ (if r.aborted then [.caught] else []), r.raised, false⟩
+  /-- A hook body: stop at the first action that raises or aborts. -/
   def evalActs : Acts → Cell → Res
-    | .nil, c => ⟨c, [], false⟩
+    | .nil, c => ⟨c, [], false, false⟩
     | .cons a rest, c =>
         let r := evalCall a c
-        if r.raised then r
+        if r.raised || r.aborted then r
         else
           let r' := evalActs rest r.cell
-          ⟨r'.cell, r.events ++ r'.events, r'.raised⟩
-  /-- The hook invocations of one extraction: each exception is contained (saved to `errors`). -/
+          ⟨r'.cell, r.events ++ r'.events, r'.raised, r'.aborted⟩
+  /-- The hook invocations of one extraction: an ordinary exception is contained (saved to `errors`) and the
+  next hook runs; a BaseException is not, and ends the extraction. -/
   def evalHooks : Hooks → Cell → Res
-    | .nil, c => ⟨c, [], false⟩
+    | .nil, c => ⟨c, [], false, false⟩
     | .cons h rest, c =>
         let r := evalActs h c
-        let r' := evalHooks rest r.cell
-        ⟨r'.cell, r.events ++ r'.events, false⟩
+        if r.aborted then ⟨r.cell, r.events, false, true⟩
+        else
+          let r' := evalHooks rest r.cell
+          ⟨r'.cell, r.events ++ r'.events, false, r'.aborted⟩
 end
 
 /-! ### Threads: each thread owns one cell (threading.local) -/
